@@ -11,17 +11,25 @@
 package main
 
 import (
+	"encoding/base64"
 	"encoding/hex"
 	"encoding/json"
 	"fmt"
+	"io"
+	"math/rand/v2"
 	"net"
 	"os"
 	"runtime"
 	"strings"
+	"time"
 
 	pt "gitlab.torproject.org/tpo/anti-censorship/pluggable-transports/goptlib"
 
 	"gitlab.com/yawning/obfs4.git/transports"
+	"gitlab.com/yawning/obfs4.git/transports/base"
+
+	"verif/o4"
+	ref "verif/ref/obfs4"
 )
 
 func init() {
@@ -35,7 +43,47 @@ type out struct {
 	Err   string `json:"err,omitempty"`
 	Cert  string `json:"cert,omitempty"`
 	IAT   string `json:"iat,omitempty"`
+	Seed  string `json:"seed,omitempty"` // the drbg-seed a client is sent behind the server's handshake response
 	Found bool   `json:"found,omitempty"`
+}
+
+// seedSentToClients connects a reference client to the factory over an
+// in-memory pipe and returns (hex) the seed carried by the PRNG-seed packet
+// the server sends behind its response: the part of the bridge's identity
+// that Args() does not show.  No file-system call is involved.
+func seedSentToClients(sf base.ServerFactory, cert string) string {
+	raw, err := base64.RawStdEncoding.DecodeString(strings.TrimRight(cert, "="))
+	if err != nil || len(raw) != 52 {
+		return ""
+	}
+	var br ref.Bridge
+	copy(br.NodeID[:], raw[:20])
+	copy(br.Pub[:], raw[20:])
+	cl, sv := net.Pipe()
+	defer cl.Close()
+	go func() {
+		if c, err := sf.WrapConn(sv); err == nil {
+			io.Copy(io.Discard, c)
+		}
+		sv.Close()
+	}()
+	cl.SetDeadline(time.Now().Add(20 * time.Second))
+	rc, _, _, err := o4.RefDial(cl, br, rand.New(rand.NewPCG(uint64(time.Now().UnixNano()), 18)), -1, o4.Hours(0))
+	if err != nil {
+		return ""
+	}
+	for i := 0; i < 4; i++ {
+		pk, err := rc.ReadPackets()
+		for _, q := range pk {
+			if q.Type == ref.PacketPrngSeed {
+				return hex.EncodeToString(q.Data)
+			}
+		}
+		if err != nil {
+			break
+		}
+	}
+	return ""
 }
 
 func emit(o out) {
@@ -48,10 +96,7 @@ func main() {
 		fmt.Fprintln(os.Stderr, "usage")
 		os.Exit(2)
 	}
-	if err := transports.Init(); err != nil {
-		emit(out{Err: err.Error()})
-		return
-	}
+	// (the transports are registered by the init function of verif/o4)
 	dir := os.Args[2]
 	switch os.Args[1] {
 	case "obfs4-start":
@@ -67,7 +112,7 @@ func main() {
 		}
 		cert, _ := sf.Args().Get("cert")
 		iat, _ := sf.Args().Get("iat-mode")
-		emit(out{OK: true, Cert: cert, IAT: iat})
+		emit(out{OK: true, Cert: cert, IAT: iat, Seed: seedSentToClients(sf, cert)})
 	case "ss-factory":
 		_, err := transports.Get("scramblesuit").ClientFactory(dir)
 		if err != nil {
